@@ -99,11 +99,8 @@ func cutLastLine(path string, j int) (string, bool) {
 }
 
 func runCase(c Case, x *h.Ctx) {
-	dir, err := os.MkdirTemp("", "c07-")
-	if err != nil {
-		panic(err)
-	}
-	defer os.RemoveAll(dir)
+	dir, doneDir := sim.TempDir("c07-")
+	defer doneDir()
 	net := sim.New(sim.Config{Powers: c.Powers, Dir: dir, RepairProposer: c.Repair})
 	defer net.Close()
 	d := sim.NewDriver(net)
